@@ -23,6 +23,13 @@ class Ctx:
         self.dir = os.path.join(OUT, "run", "%s-%d" % (pid, os.getpid()))
         shutil.rmtree(self.dir, ignore_errors=True)
         os.makedirs(self.dir)
+        for old in os.listdir(os.path.dirname(self.dir)):       # leftovers of killed runs
+            q = os.path.join(os.path.dirname(self.dir), old)
+            try:
+                if q != self.dir and time.time() - os.path.getmtime(q) > 7200:
+                    shutil.rmtree(q, ignore_errors=True)
+            except OSError:
+                pass
         self.violations = []     # list of dicts {what, replay}
         self.known = []          # list of strings (KNOWN-FINDING lines)
         self.cov = {}            # coverage dict for the evidence
